@@ -283,6 +283,8 @@ class Executor:
             return [self.const_val(st, o) for o in val.ops]
         if k == "cexpr":
             return self.const_expr(st, val)
+        if k == "md":
+            return None
         raise IRUnsupported("constant kind " + k)
 
     def undef_of(self, ty):
@@ -557,6 +559,10 @@ class Executor:
                 return v
             elif ty.k == "fp" and not isinstance(v, (IV, Ptr)) and z3.is_fp(v) and v.sort() == fpsort(ty.name):
                 return v
+        if ty.k == "int" and ty.bits == size * 8:
+            v = self.load_from_cells(obj, off, size)
+            if v is not None:
+                return v
         bs = self.read_bytes(st, obj, off, size)
         if ty.k == "ptr":
             if all(isinstance(b, tuple) and b[0] == "ptr" and b[2] == i and b[1] is bs[0][1] for i, b in enumerate(bs)):
@@ -580,6 +586,54 @@ class Executor:
             v = self.dom.from_bytes(bs, bits)
             return z3.fpBVToFP(self.dom.E(v), fpsort(ty.name))
         raise IRUnsupported("load of %r" % ty)
+
+    def load_from_cells(self, obj, off, size):
+        """integer load assembled from whole integer cells (no byte splitting), or a sub-range of one cell"""
+        d = self.dom
+        parts = []
+        pos = off
+        end = off + size
+        while pos < end:
+            c = obj.cells.get(pos)
+            if c is None or not isinstance(c[1], IV) or c[1].bits != c[0] * 8 or pos + c[0] > end:
+                parts = None
+                break
+            parts.append((pos - off, c[0], c[1]))
+            pos += c[0]
+        if parts:
+            if len(parts) == 1:
+                return parts[0][2]
+            if self.mode == "bv":
+                return IV(size * 8, e=z3.Concat(*[d.E(p[2]) for p in reversed(parts)]))
+            e = None
+            for (ro, csz, iv) in parts:
+                t = d.U(iv) * (1 << (8 * ro)) if ro else d.U(iv)
+                e = t if e is None else e + t
+            r = d.mk_u(size * 8, e)
+            r.cat = [(8 * ro, iv) for (ro, csz, iv) in parts]
+            r.urng = (0, (1 << (size * 8)) - 1)
+            return r
+        # sub-range of a single larger integer cell
+        for coff, (csz, cv) in obj.cells.items():
+            if coff <= off and off + size <= coff + csz and isinstance(cv, IV) and cv.bits == csz * 8 and csz > size:
+                sh = 8 * (off - coff)
+                if cv.c is not None:
+                    return IV(size * 8, c=(cv.c >> sh))
+                if self.mode == "bv":
+                    return IV(size * 8, e=z3.Extract(sh + size * 8 - 1, sh, d.E(cv)))
+                if cv.cat is not None:
+                    hi_ = d.cat_high(cv, sh) if sh else cv
+                    if hi_ is not None:
+                        lo_ = d.cat_low(hi_, size * 8) if hi_.bits > size * 8 else hi_
+                        if lo_ is not None and lo_.bits == size * 8:
+                            return lo_
+                e = d.U(cv)
+                if sh:
+                    e = e / (1 << sh)
+                if sh + size * 8 < cv.bits:
+                    e = e % (1 << (size * 8))
+                return d.mk_u(size * 8, e)
+        return None
 
     def store_conc(self, st, oid, off, ty, v):
         ty = self.mod.resolve(ty)
